@@ -21,6 +21,15 @@ Section W.
   Definition graph_acyclic (G : cfg Vr) : bool :=
     let vs := dedup (map fst (g_prods G) ++ flat_map (fun p => body_vars (snd p)) (g_prods G)) in
     forallb (fun A => negb (mem A (closure (var_succs G) vs (var_succs G A)))) vs.
+  (* hypothesis of the finiteness theorem, evaluated on every case: every variable of the (normal-form) grammar is generating
+     and reachable from the start symbol in the variable graph *)
+  Definition nf_vars_useful (C : cfg Vr) : bool :=
+    match g_start C with
+    | Some s =>
+      let vs := dedup (map fst (g_prods C) ++ flat_map (fun p => body_vars (snd p)) (g_prods C)) in
+      forallb (fun A => mem A (generating_vars C) && (eqb A s || mem A (closure (var_succs C) (s :: vs) [s]))) vs
+    | None => false
+    end.
 End W.
 
 Definition is_finite {Vr} `{EqDec Vr} (fuel : nat) (G : cfg Vr) : option bool :=
